@@ -23,6 +23,7 @@ from pathlib import Path
 
 sys.path.insert(0, str(Path(__file__).resolve().parent.parent))
 from harness.common import (Run, Disagreement, cli, DriverError)  # noqa: E402
+from harness import c05_focus  # noqa: E402
 
 PROP = 'C05'
 EPOCH = datetime.datetime(2000, 1, 1)
@@ -1704,6 +1705,7 @@ def search(run: Run):
     cases = template_cases() + [gen_case(run.rng, True) for _ in range(run.scale(1500, 6000))]
     for i in range(0, len(cases), 500):
         compare(sub, cases[i:i + 500], stats=False)
+    sub.disagreements.extend(c05_focus.focus_histories(sub, limited_driver, run.scale(1500, 6000), stats=False))
     run.notes.append(f'search: {len(cases)} cases (systematic scope templates + random histories), '
                      f'{len(sub.disagreements)} disagreements')
     return sub.disagreements
@@ -1942,6 +1944,11 @@ def replay(run: Run, path: str) -> int:
     if not c:
         print('replay file carries no failing input')
         return 2
+    if 'fast' in c:                                   # a history of the focus fragment (harness/c05_focus.py)
+        for d in c05_focus.replay_case(run, limited_driver, c):
+            run.disagree(d)
+            print('replayed:', d.to_json())
+        return run.finish('proof')
     case = {'ast': tuple_deep(c['ast']), 'merge': c['merge'], 'heap': [tuple(x) for x in c['heap']],
             'var_sets': [{int(k): [tuple(i) for i in v] for k, v in vs.items()} for vs in c['var_sets']],
             'steps': c['steps'], 'flavour': 'replay', 'xsd': c.get('xsd', '1.0'), 'match_cls': c.get('match_cls', False)}
@@ -1960,8 +1967,11 @@ def body(run: Run) -> int:
         'generators are modelled eagerly: generated programs raise errors only at strict top-level positions',
         'only integers, booleans, xs:dateTime, xs:dayTimeDuration and inline functions occur as values',
         'that no evaluation writes to the XML tree, the schema or the namespaces map is OBSERVED on the histories, not proved',
-        'token-level caches other than the closure variables (XPathMap._map, XPathFunction._items) are exercised by '
-        're-evaluation histories only',
+        'token-level caches other than the closure variables: the slots of map / array constructor tokens (XPathMap._map, '
+        'XPathArray._array) are modelled and proved untouched on the focus fragment (Props/C05Focus); XPathFunction._items '
+        'and the other dynamic sites are exercised by re-evaluation histories only',
+        'focus fragment: maps / arrays hold sequences of atomic values (no nested containers); `.`, position(), last() only '
+        'under `!` or a predicate (the model has no top-level focus)',
     ]
     info = translate(run)
     run.new_sites = info['new']
@@ -1973,11 +1983,15 @@ def body(run: Run) -> int:
                                           'unreviewed': {k: [list(x) for x in v] for k, v in info['new'].items() if v}}
     run.trusted_base.append('translator harness/c05_sites.py (syntactic, name-based ast scan of the package for write sites)')
     if getattr(run, 'replay', None):
-        run.prove(['EPV.Props.C05', 'EPV.Props.C05Sites'], ['EPV.Spec.LexicalSem'])
+        run.prove(['EPV.Props.C05', 'EPV.Props.C05Sites', 'EPV.Props.C05Focus'],
+                      ['EPV.Spec.LexicalSem', 'EPV.Model.FocusCtorDriver'])
         return replay(run, run.replay)
-    run.prove(['EPV.Props.C05', 'EPV.Props.C05Sites'], ['EPV.Spec.LexicalSem'])
+    run.prove(['EPV.Props.C05', 'EPV.Props.C05Sites', 'EPV.Props.C05Focus'],
+                  ['EPV.Spec.LexicalSem', 'EPV.Model.FocusCtorDriver'])
     try:
         correspond(run)
+        for d in c05_focus.focus_histories(run, limited_driver, run.scale(500, 5000)):   # phase 5: focus fragment
+            run.disagree(d)
         cache_histories(run)
         object_histories(run)
         dynamic_site_histories(run)
